@@ -36,6 +36,11 @@ type Reply struct {
 	BigLen  int    `json:"big_len,omitempty"`
 	BigSeed int64  `json:"big_seed,omitempty"`
 	Plan    string `json:"chunk_plan,omitempty"` // one | 4k | few | many | edges | mixed
+	// Defect (1.1, 'defect' family): the chunk header of chunk DefectAt (>= 1, so that the message-id stays
+	// readable) is made defective: non-numeric | zero | too-small | too-large | negative | empty. The
+	// message still ends in the end-of-chunks marker.
+	Defect   string `json:"defect,omitempty"`
+	DefectAt int    `json:"defect_at,omitempty"`
 	// Trailer is the payload of a further server message (no message-id, or an old one) that follows
 	// the reply at once as a separate, marked server message
 	Trailer string `json:"trailer,omitempty"`
@@ -64,6 +69,11 @@ type DrvSession struct {
 }
 
 const firstMsgID = 101
+
+// callTimeout is the per-call timeout. A call that times out is judged lost only if the whole reply
+// had been delivered and the transport has been idle for half of it (no wall-clock verdict under load:
+// a slow library - race detector, loaded machine - is still reading or has returned by then).
+const callTimeout = 60 * time.Second
 
 // materialize fills Payload and Sizes of a big reply.
 func (rp *Reply) materialize(version string, id int) {
@@ -111,6 +121,54 @@ func frameTrailer(version, payload string, lf bool) []byte {
 	return raw
 }
 
+var defects = []string{"non-numeric", "zero", "too-small", "too-large", "negative", "empty"}
+
+// GenDefectSession draws a 1.1 session in which some replies have a defective chunk header (but end
+// in the end-of-chunks marker) and are followed by legal replies: the defective ones must come back
+// marked failed with an empty result (not as a time-out), the later ones must decode.
+func GenDefectSession(r *rand.Rand, k int) DrvSession {
+	s := DrvSession{Family: "defect", Version: "1.1", Caps: []string{"only", "both"}[r.Intn(2)]}
+	s.Echo = r.Intn(3) == 0
+	if s.Echo {
+		s.EchoJoin = []string{"", "nomark", "held"}[r.Intn(3)]
+	}
+	s.ReadDelayUS = []int{50, 250}[r.Intn(2)]
+	s.ReadSize = []int{64, 8192, 65535}[r.Intn(3)]
+	s.Seg = devsim.Seg{Mode: []string{"fixed", "whole", "geom", "mix"}[r.Intn(4)], Size: []int{1, 3, 7, 16, 100, 1000}[r.Intn(6)], Seed: r.Int63()}
+	n := 4 + r.Intn(4)
+	for i := 0; i < n; i++ {
+		rp := Reply{API: []string{"get", "rpc", "getconfig"}[r.Intn(3)]}
+		defective := i == 1 || (i > 1 && i < n-1 && r.Intn(3) == 0) // never the last: a legal reply always follows
+		for {
+			rp.Payload, rp.Variant = GenPayload(r, PayloadCfg{ID: firstMsgID + i, BodyLen: 20 + r.Intn(400), HashLines: false})
+			rp.Mode = []string{"two", "few", "many", "edges", "mixed"}[r.Intn(5)]
+			rp.Sizes = GenSizes(r, rp.Payload, rp.Mode, true)
+			rp.Defect, rp.DefectAt = "", 0
+			if !wireOK11(rp.frame("1.1")) {
+				continue
+			}
+			if !defective {
+				break
+			}
+			// the first chunk must hold the whole opening tag (message-id readable), the defect sits later
+			open := strings.Index(rp.Payload, "<rpc-reply")
+			end := open + strings.IndexByte(rp.Payload[open:], '>')
+			if len(rp.Sizes) < 2 || rp.Sizes[0] <= end {
+				continue
+			}
+			rp.Defect = defects[(k+i)%len(defects)]
+			rp.DefectAt = 1 + r.Intn(len(rp.Sizes)-1)
+			raw := rp.frame("1.1")
+			// the defective message still ends in the marker, has no other "##" line, and the reference rejects it
+			if _, ok, _ := RefDecode(raw); !ok && wireOK11(raw) {
+				break
+			}
+		}
+		s.Replies = append(s.Replies, rp)
+	}
+	return s
+}
+
 // GenBigSession draws one session of the 'bigbuf' family: replies of 64 KiB … 300 KiB, each followed
 // at once by another server message, so that a receive buffer that is reused after a reply was filed
 // is overwritten while the caller still decodes.
@@ -150,7 +208,31 @@ func GenBigSession(r *rand.Rand, k int) DrvSession {
 
 func (rp Reply) frame(version string) []byte {
 	if version == "1.1" {
-		return ncwire.EncodeChunked([]byte(rp.Payload), rp.Sizes)
+		raw := ncwire.EncodeChunked([]byte(rp.Payload), rp.Sizes)
+		if rp.Defect == "" {
+			return raw
+		}
+		spans, _ := headerSpans(len(rp.Payload), rp.Sizes)
+		sp, size := spans[rp.DefectAt], rp.Sizes[rp.DefectAt]
+		switch rp.Defect {
+		case "non-numeric":
+			return splice(raw, sp[0], sp[1], strconv.Itoa(size)+"x")
+		case "zero":
+			return splice(raw, sp[0]-2, sp[0]-2, "\n#0\n")
+		case "too-small":
+			d := 3
+			if size <= 3 {
+				d = size - 1
+			}
+			return splice(raw, sp[0], sp[1], strconv.Itoa(size-d))
+		case "too-large":
+			return splice(raw, sp[0], sp[1], strconv.Itoa(size+5))
+		case "negative":
+			return splice(raw, sp[0], sp[1], "-"+strconv.Itoa(size))
+		case "empty":
+			return splice(raw, sp[0], sp[1], "")
+		}
+		panic("unknown defect " + rp.Defect)
 	}
 	raw := ncwire.EncodeEOM([]byte(rp.Payload))
 	if rp.LFAfter {
@@ -503,6 +585,12 @@ func RunDrv(s DrvSession) mon.Result {
 		})
 	}
 	conn := devsim.NewConn(jd, devsim.Config{Seg: s.Seg, KeepData: true})
+	lastRead := time.Now()
+	conn.OnEvent = func(e devsim.Event) { // called with the conn mutex held
+		if e.Kind == "read" {
+			lastRead = time.Now()
+		}
+	}
 	defer conn.Abandon()
 	opts := []util.Option{
 		options.WithCustomTransport(conn),
@@ -542,11 +630,11 @@ func RunDrv(s DrvSession) mon.Result {
 	nontrivial := false
 	// violations of the classification clauses leave the session intact: the remaining replies are still judged
 	var soft []mon.Result
+	defectSeen := false
 	for i, rp := range s.Replies {
 		var r *response.NetconfResponse
 		var err error
-		to := opoptions.WithTimeoutOps(10 * time.Second)
-		t1 := time.Now()
+		to := opoptions.WithTimeoutOps(callTimeout)
 		switch rp.API {
 		case "rpc":
 			r, err = d.RPC(opoptions.WithFilter("<get><x/></get>"), to)
@@ -597,12 +685,39 @@ func RunDrv(s DrvSession) mon.Result {
 				if !sent {
 					return mon.Result{Verdict: mon.Inconclusive, Detail: "request never completed at the server model"}
 				}
-				if conn.Delivered() < sp.end || mon.LoadedSince(t1) {
-					return mon.Result{Verdict: mon.Inconclusive, Detail: fmt.Sprintf("timeout with %d of %d bytes delivered (or machine loaded)", conn.Delivered(), sp.end)}
+				var idle time.Duration
+				conn.Do(func() { idle = time.Since(lastRead) })
+				if conn.Delivered() < sp.end || idle < callTimeout/2 {
+					return mon.Result{Verdict: mon.Inconclusive, Detail: fmt.Sprintf("timeout with %d of %d bytes delivered, last transport read %s ago", conn.Delivered(), sp.end, idle.Round(time.Second))}
+				}
+				if rp.Defect != "" {
+					return bad("c02/malformed-reply-lost:"+s.Version, "a reply with a defective chunk header (%s at chunk %d) that ends in the end-of-chunks marker was delivered completely %s ago, but the call timed out instead of returning a response marked failed: %v",
+						rp.Defect, rp.DefectAt, idle.Round(time.Second), err)
 				}
 				return bad("c02/reply-lost:"+s.Version, "the whole reply was delivered (%d bytes) but the call timed out: %v", sp.end-sp.start, err)
 			}
 			return bad("c02/driver-error:"+errClass(err), "call returned %v", err)
+		}
+		if rp.Defect != "" {
+			// malformed framing: must be marked failed with a parse error, nothing returned
+			if r.Failed == nil {
+				return bad("c02/malformed-reply-not-failed:"+s.Version, "defective chunk header (%s at chunk %d) but Failed is nil, Result %q", rp.Defect, rp.DefectAt, clipS(r.Result))
+			}
+			if r.Result != "" {
+				return bad("c02/malformed-reply-result-nonempty:"+s.Version, "defective chunk header (%s at chunk %d), Failed=%v but Result %q", rp.Defect, rp.DefectAt, r.Failed, clipS(r.Result))
+			}
+			if !strings.Contains(r.Failed.Error(), "unable to parse netconf 1.1 response") {
+				return bad("c02/malformed-reply-not-a-parse-error:"+s.Version, "defective chunk header (%s), Failed=%v", rp.Defect, r.Failed)
+			}
+			obs["driver_replies"]++
+			obs["driver_replies_with_defective_chunk_header_returned_failed"]++
+			tags["defect="+rp.Defect] = true
+			defectSeen = true
+			continue
+		}
+		if defectSeen {
+			obs["legal_replies_after_a_defective_one"]++
+			nontrivial = true
 		}
 		want := TrimPayload([]byte(rp.Payload))
 		carries := CarriesError([]byte(rp.Payload))
